@@ -249,7 +249,8 @@ def check_labels(t, counters, wit):
             except Exception as exc:
                 got = type(exc).__name__
             if got != i:
-                return dict(wit, what="C07 unique label %r of row %d resolves to %r (%s) on index column %s" % (lab, i, got, form, names))
+                return dict(wit, what="C07 unique label %r of row %d resolves to %r (%s) on index column %s" % (lab, i, got, form, names),
+                            label=[lab, i, got, form])
     return None
 
 
@@ -326,6 +327,16 @@ def stale_answer(src, snap, v):
     if "lookup" in v:
         form, nm, cnt, off = v["lookup"]
         return do_lookup(src, form, nm, cnt, off) == expected_lookup(snap, nm, cnt, off)
+    if "label" in v:
+        # the label (computed from the current column) resolved through the stale cache: the answer a scan of the OLD column gives
+        lab, i, got, form = v["label"]
+        try:
+            old = int(TR.resolve_row(snap, lab))
+        except KeyError:
+            old = "KeyError"
+        except Exception:
+            return False
+        return got == old
     try:
         return list(src.cols.get_index_unique()) == TR.unique_labels(snap)
     except Exception:
